@@ -48,11 +48,26 @@ def gen_valid_text(rng, env, depth, labels):
     return '1', 0
 
 
-def gen_case(rng, tier):
+LEXCASES = ['b101', 'B101', 'FACEH', 'ffh', '0X1F', '1AH', '%101', '7 %10', '7 % 3', '7 % 1', '$zz', "'a'+1",
+            'BYTE1(513)', 'BYTE9(1)', 'LSB(1234H)', 'BYTES', 'BYTE1 513)', '__x', '..x', '_', 'x.y', '5 5', '0x10',
+            '$10', '10H', '10h', 'bH', 'b1H', 'deadH', 'b2', '12ab', '1 + b1', '9H+1', "'''", "' '", '1 << 2 >> 1',
+            '-1 + 2', '- - 3', '-(3)', '-3*-3', '2*-3', '1/49*49', '7/2', '-7/2', '(0-7)/2', '-7 % 3', '7 % (0-3)',
+            '1 << 64', '(1 << 64) - 1 >> 60', '-1 >> 3', '-8 >> 1', '-5 & 3', '-5 | 3', '-5 ^ 3', '6 & 3 | 8 ^ 1',
+            '2 + 3 * 4', '2 * 3 + 4', '2 + 3 << 1', '1 << 2 + 3', '1 | 2 << 1', '8 / 2 / 2', '8 - 2 - 2', '2 * 7 % 4',
+            '(2+3)*4', '((2))', '()', '', '+', '1 +', '(1', '1)', 'BYTE0(-1)', 'BYTE1(-256)', 'BYTE2(-65536) + BYTE3(-1)',
+            'LSB(-129)', 'BYTE1(0-129)', 'BYTE1(65535/2)', 'LSB(7/2)', 'LSB(-7/2)', '10 / 4 * 4', '10 / 4 + 10 / 4',
+            'BYTE10(513)', 'BYTE10($112233445566778899AABBCCDD)', 'BYTE12(1)', 'BYTE00(5)', 'BYTE01(513)', 'BYTE20(-1)',
+            'BYTE1(2)(3)', 'LSB1(5)', 'LSB0(5)', 'BYTE(5)', 'byte1(513)', 'lsb(5)', 'Byte1(513)', 'BYTE1 (513)', 'LSB (5)',
+            'BYTE1(BYTE10(5))', '1 + BYTE11(70000)', 'BYTE3($12345678) + BYTE10($12345678)',
+            '1/3 + 1/3 + 1/3', '1/3*3', '(1 << 70) / 3 * 3', '(1<<53)+1', '9007199254740993 / 1', '9007199254740993 / 3 * 3']
+N_LEXCASES = len(LEXCASES)
+
+
+def gen_case(rng, tier, fixed=None):
     depth = 5 if tier == 'quick' else 9
     env = gen_env(rng)
     labels = list(env)
-    r = rng.random()
+    r = rng.random() if fixed is None else 2.0
     if r < 0.5:
         n = 6
         exprs = []
@@ -96,16 +111,7 @@ def gen_case(rng, tier):
         s = X.join(rng, toks)
         return {'kind': 'malformed', 'how': how, 'env': env, 'exprs': [s], 'end': False, 'nops': 1,
                 'endian': 'big', 'via_operand': True}
-    lexcases = ['b101', 'B101', 'FACEH', 'ffh', '0X1F', '1AH', '%101', '7 %10', '7 % 3', '7 % 1', '$zz', "'a'+1",
-                'BYTE1(513)', 'BYTE9(1)', 'LSB(1234H)', 'BYTES', 'BYTE1 513)', '__x', '..x', '_', 'x.y', '5 5', '0x10',
-                '$10', '10H', '10h', 'bH', 'b1H', 'deadH', 'b2', '12ab', '1 + b1', '9H+1', "'''", "' '", '1 << 2 >> 1',
-                '-1 + 2', '- - 3', '-(3)', '-3*-3', '2*-3', '1/49*49', '7/2', '-7/2', '(0-7)/2', '-7 % 3', '7 % (0-3)',
-                '1 << 64', '(1 << 64) - 1 >> 60', '-1 >> 3', '-8 >> 1', '-5 & 3', '-5 | 3', '-5 ^ 3', '6 & 3 | 8 ^ 1',
-                '2 + 3 * 4', '2 * 3 + 4', '2 + 3 << 1', '1 << 2 + 3', '1 | 2 << 1', '8 / 2 / 2', '8 - 2 - 2', '2 * 7 % 4',
-                '(2+3)*4', '((2))', '()', '', '+', '1 +', '(1', '1)', 'BYTE0(-1)', 'BYTE1(-256)', 'BYTE2(-65536) + BYTE3(-1)',
-                'LSB(-129)', 'BYTE1(0-129)', 'BYTE1(65535/2)', 'LSB(7/2)', 'LSB(-7/2)', '10 / 4 * 4', '10 / 4 + 10 / 4',
-                '1/3 + 1/3 + 1/3', '1/3*3', '(1 << 70) / 3 * 3', '(1<<53)+1', '9007199254740993 / 1', '9007199254740993 / 3 * 3']
-    s = rng.choice(lexcases)
+    s = rng.choice(LEXCASES) if fixed is None else LEXCASES[fixed % len(LEXCASES)]
     return {'kind': 'corner', 'env': {'x': 3} if 'x' in s else {}, 'exprs': [s], 'end': False, 'nops': 2, 'endian': 'big',
             'via_operand': True}
 
@@ -113,6 +119,7 @@ def gen_case(rng, tier):
 def generate(rng, tier):
     n = 450 if tier == 'quick' else 10000
     cases = [gen_case(rng, tier) for _ in range(n)]
+    cases += [gen_case(rng, tier, fixed=i) for i in range(N_LEXCASES)]     # every lexer corner text once per run
     for c in cases:
         # a third channel: parse_expression(text).get_value(scope) called directly (function-level probe, no statement
         # syntax around the text, so blank text and ''' are in scope too)
